@@ -94,6 +94,16 @@ def split_wellformed(s):
     return out
 
 
+def tokens_with_dots(s):
+    """Own tokenisation of a well-formed string: symbols and '.' items."""
+    out = []
+    for k, f in enumerate(s.split(".")):
+        if k:
+            out.append(".")
+        out.extend(split_wellformed(f))
+    return out
+
+
 _BRANCH = {}
 _RING = {}
 for _L in (1, 2, 3):
